@@ -148,8 +148,8 @@ package rlwe
 //@   ensures implies(isnil(result) && len(ct.Value) == 1, val(c0) + val(enc.buffQP[1].Q) * val(sk.Value.Q) == fresh(XE, old(draws(XE))) && uni(enc.buffQP[1].Q))
 
 //@ afunc Element.Resize
-//@   trusted the element loop and the append are not executed: afterwards the element has degree+1 components (levels are not tracked); the components it GAINS are new polynomials, i.e. the zero element (in every domain)
-//@   setlen op.Value = degree + 1 ; zero
+//@   trusted the element loop and the append are not executed: afterwards the element has degree+1 components, each with level+1 rows; the components it GAINS are new polynomials, i.e. the zero element (in every domain)
+//@   setlen op.Value = degree + 1 ; zero ; rows level + 1
 
 // public-key encryption without auxiliary modulus: (u*pk0 + e0, u*pk1 + e1) with two distinct error draws
 //@ afunc Encryptor.encryptZeroPkNoP
@@ -673,7 +673,7 @@ package rlwe
 
 // ==== property C04, per-call structure of key switching: the gadget product of the RIGHT component with the
 // ==== RIGHT key is what is added to the RIGHT components, in place and out of place; the output takes the
-// ==== metadata of the input.  The gadget product is NAMED (uf_gp0, uf_gp1), not interpreted.
+// ==== metadata of the input and the COMMON level of input and receiver (finding F46).  The gadget product is NAMED (uf_gp0, uf_gp1), not interpreted.
 //@ afunc Evaluator.ApplyEvaluationKey
 //@   property C04
 //@   case len(ctIn.Value) == 2 && len(opOut.Value) == 2
@@ -682,6 +682,10 @@ package rlwe
 //@   requires indom(ctIn.Value[0], ctIn.MetaData.CiphertextMetaData.IsNTT) && indom(ctIn.Value[1], ctIn.MetaData.CiphertextMetaData.IsNTT) && mexp(ctIn.Value[0]) == 0 && mexp(ctIn.Value[1]) == 0
 //@   let g = old(contentid(evk.GadgetCiphertext))
 //@   ensures implies(isnil(err), val(opOut.Value[0]) == old(val(ctIn.Value[0])) + uf_gp0(old(val(ctIn.Value[1])), g) && val(opOut.Value[1]) == uf_gp1(old(val(ctIn.Value[1])), g))
+//@   requires len(ctIn.Value[1].Coeffs) == len(ctIn.Value[0].Coeffs) && len(opOut.Value[1].Coeffs) == len(opOut.Value[0].Coeffs)
+//@   let lin = old(len(ctIn.Value[0].Coeffs))
+//@   let lout = old(len(opOut.Value[0].Coeffs))
+//@   ensures implies(isnil(err), len(opOut.Value[0].Coeffs) == ite(lin <= lout, lin, lout) && len(opOut.Value[1].Coeffs) == ite(lin <= lout, lin, lout))
 //@   ensures implies(isnil(err), iff(opOut.MetaData.CiphertextMetaData.IsNTT, old(ctIn.MetaData.CiphertextMetaData.IsNTT)) && sameval(opOut.MetaData.PlaintextMetaData.Scale, old(ctIn.MetaData.PlaintextMetaData.Scale)))
 
 //@ afunc Evaluator.Relinearize
@@ -694,6 +698,10 @@ package rlwe
 //@   requires indom(ctIn.Value[0], ctIn.MetaData.CiphertextMetaData.IsNTT) && indom(ctIn.Value[1], ctIn.MetaData.CiphertextMetaData.IsNTT) && indom(ctIn.Value[2], ctIn.MetaData.CiphertextMetaData.IsNTT) && mexp(ctIn.Value[0]) == 0 && mexp(ctIn.Value[1]) == 0 && mexp(ctIn.Value[2]) == 0
 //@   let g = uf_rlk(contentid(eval.EvaluationKeySet))
 //@   ensures implies(isnil(err), len(opOut.Value) == 2)
+//@   requires len(ctIn.Value[1].Coeffs) == len(ctIn.Value[0].Coeffs) && len(opOut.Value[1].Coeffs) == len(opOut.Value[0].Coeffs)
+//@   let lin = old(len(ctIn.Value[0].Coeffs))
+//@   let lout = old(len(opOut.Value[0].Coeffs))
+//@   ensures implies(isnil(err), len(opOut.Value[0].Coeffs) == ite(lin <= lout, lin, lout) && len(opOut.Value[1].Coeffs) == ite(lin <= lout, lin, lout))
 //@   ensures implies(isnil(err), val(opOut.Value[0]) == old(val(ctIn.Value[0])) + uf_gp0(old(val(ctIn.Value[2])), g) && val(opOut.Value[1]) == old(val(ctIn.Value[1])) + uf_gp1(old(val(ctIn.Value[2])), g))
 //@   ensures implies(isnil(err), iff(opOut.MetaData.CiphertextMetaData.IsNTT, old(ctIn.MetaData.CiphertextMetaData.IsNTT)) && sameval(opOut.MetaData.PlaintextMetaData.Scale, old(ctIn.MetaData.PlaintextMetaData.Scale)))
 
@@ -706,5 +714,9 @@ package rlwe
 //@   requires galEl != 1 && !ctIn.MetaData.CiphertextMetaData.IsNTT
 //@   requires iscoef(ctIn.Value[0]) && iscoef(ctIn.Value[1]) && mexp(ctIn.Value[0]) == 0 && mexp(ctIn.Value[1]) == 0 && dom(ctIn.Value[0]) == 0 && dom(ctIn.Value[1]) == 0
 //@   let g = uf_gk(contentid(eval.EvaluationKeySet), galEl)
+//@   requires len(ctIn.Value[1].Coeffs) == len(ctIn.Value[0].Coeffs) && len(opOut.Value[1].Coeffs) == len(opOut.Value[0].Coeffs)
+//@   let lin = old(len(ctIn.Value[0].Coeffs))
+//@   let lout = old(len(opOut.Value[0].Coeffs))
+//@   ensures implies(isnil(err), len(opOut.Value[0].Coeffs) == ite(lin <= lout, lin, lout) && len(opOut.Value[1].Coeffs) == ite(lin <= lout, lin, lout))
 //@   ensures implies(isnil(err), val(opOut.Value[0]) == uf_autom(old(val(ctIn.Value[0])) + uf_gp0(old(val(ctIn.Value[1])), g), galEl) && val(opOut.Value[1]) == uf_autom(uf_gp1(old(val(ctIn.Value[1])), g), galEl))
 //@   ensures implies(isnil(err), iff(opOut.MetaData.CiphertextMetaData.IsNTT, old(ctIn.MetaData.CiphertextMetaData.IsNTT)) && sameval(opOut.MetaData.PlaintextMetaData.Scale, old(ctIn.MetaData.PlaintextMetaData.Scale)))
